@@ -298,6 +298,27 @@ func init() {
 						}
 					}
 				}})
+			// long runs of plain text without a line break, around powers of two, on first and later lines, before
+			// every kind of construct
+			runLens := []int{15, 16, 17, 31, 32, 33, 63, 64, 65, 127, 128, 129, 255, 256, 257, 1000, 4096}
+			secs = append(secs, core.Section{Name: "long-text-runs", Exhaustive: true, N: len(runLens) * 4,
+				Run: func(c *core.Ctx, i int) {
+					n := runLens[i%len(runLens)]
+					fill := []string{"x", "ab cd ", "é", "<td class='c'>"}[i/len(runLens)]
+					body := strings.Repeat(fill, n/len(fill)+1)[:n]
+					for !utf8.ValidString(body) {
+						body = body[:len(body)-1]
+					}
+					for _, pre := range []string{"", "<div>\n", "a\nb\n", "<p>", "\r\n"} {
+						runText(c, pre+body)
+						runText(c, pre+body+"\n"+body)
+						runText(c, pre+body+"\\{{ x }}"+body)
+						runText(c, pre+body+"\\@if(x)")
+						for _, sp := range splices {
+							judge(c, "long-run-"+sp.name, pre+body+sp.src+body, pre+body+sp.out+body)
+						}
+					}
+				}})
 			// text of a custom error page, written by Response for a page that fails
 			secs = append(secs, core.Section{Name: "text-in-custom-error-page", Exhaustive: true, N: len(fileTexts),
 				Run: func(c *core.Ctx, i int) {
